@@ -4046,6 +4046,11 @@ class Valuation:
             x = self.value(t[2])
             if x is not None:
                 return any(x == z[1] for z in t[3][1])
+        if t[0] == 'cmp' and t[1] == '==' and t[2][0] in ('cmp', 'not', 'and', 'or') and t[3][0] in ('cmp', 'not', 'and', 'or'):
+            # (a > 0) == (b > 0): two truth values compared
+            x, y = self.evalbool(t[2]), self.evalbool(t[3])
+            if x is not None and y is not None:
+                return x == y
         if t[0] == 'cmp' and self.nums and t[1] in ('<', '<=', '=='):
             x, y = self.value(t[2]), self.value(t[3])
             if x is not None and y is not None:
